@@ -35,7 +35,18 @@ func c15Put(path string, state int, entries []database.Command, faultTimes int) 
 	case c15Dir:
 		verifFSMkdir(path)
 	case c15Garbage:
-		verifFSPutGarbage(path)
+		// damaged in one of several ways; the decoder's message for a duplicated mapping key quotes
+		// the key, which may read like an operating-system error
+		g := 0
+		if c15Echo {
+			g = verifIntRange("garbage", 0, 3)
+		}
+		if g == 0 {
+			verifFSPutGarbage(path)
+		} else {
+			phrase := []string{"", "no such file or directory", "permission denied", "is a directory"}[g]
+			verifFSPutBytes(path, []byte("- command: x\n  description: y\n  \""+phrase+"\": one\n  \""+phrase+"\": two\n"))
+		}
 	case c15Blank:
 		if verifBool("commentOnly") {
 			verifFSPutBytes(path, []byte("# nothing yet\n"))
@@ -56,6 +67,9 @@ func c15Run(mainStates, personalStates []int, maxAttemptsHi int, symbolicDelays 
 }
 
 var c15FactorGrid []float64
+
+// c15Echo: damaged files also come in the variants whose decoder message quotes an OS-error phrase
+var c15Echo bool
 
 func c15RunF(mainStates, personalStates []int, maxAttemptsHi int, symbolicDelays bool, symbolicFactor bool) {
 	root := verifFSRoot()
@@ -151,7 +165,16 @@ func c15RunF(mainStates, personalStates []int, maxAttemptsHi int, symbolicDelays
 		if cfg.MaxDelay < lo {
 			lo = cfg.MaxDelay
 		}
-		verifAssert(elapsed >= time.Duration(attempts-1)*lo, "C15: waits never decrease (total wait is at least attempts-1 times the first wait)")
+		// "at most the configured number of times": any number w of waits from 0 to attempts-1 is
+		// allowed (a damaged file whose decoder message reads like a permission error is given up
+		// at once, which the property permits); the total must fit some such w
+		fits := false
+		for w := 0; w <= attempts-1; w++ {
+			if elapsed >= time.Duration(w)*lo && elapsed <= time.Duration(w)*cfg.MaxDelay {
+				fits = true
+			}
+		}
+		verifAssert(fits, "C15: waits never decrease and never exceed the configured maximum (the total wait fits some number of waits from 0 to attempts-1, each between the first wait and the maximum)")
 		verifAssert(elapsed <= time.Duration(attempts-1)*cfg.MaxDelay, "C15: no wait exceeds the configured maximum (total wait bounded)")
 	}
 	// a permission-denied notebook beside a good main file is not retried either
@@ -182,6 +205,8 @@ func c15RunF(mainStates, personalStates []int, maxAttemptsHi int, symbolicDelays
 }
 
 func VerifHarness_C15_Ladder() {
+	c15Echo = true
+	defer func() { c15Echo = false }()
 	c15Run([]int{c15OK, c15Missing, c15Dir, c15Garbage, c15Denied, c15IOErr, c15Blank}, []int{c15OK, c15Missing, c15Garbage, c15Dir, c15Blank, c15Denied}, 3, false)
 }
 func VerifHarness_C15_LadderDelays() {
